@@ -357,8 +357,14 @@ def report(ctx: click.Context, tjp_file: Optional[str], output_csv: bool, output
                 "This may indicate a scheduling issue with your project."
             )
 
-        # Get the primary output file (first one)
-        primary_output = output_files[0]
+        # The report to emit is the auto-generated one; the project may define reports of its
+        # own in the same format, and a directory listing has no defined order
+        primary_output = temp_output_dir / f"{auto_report_id}.{output_format}"
+        if primary_output not in output_files:
+            raise ReportGenerationError(
+                "Report generation completed but the requested report was not written. "
+                "This may indicate a scheduling issue with your project."
+            )
 
         if verbose:
             logger.debug("Reading report from: %s", primary_output)
